@@ -8,7 +8,7 @@ from harness.props.c01 import gen_history
 from harness.props.c04 import f16_condition, commit_detecting_f33
 
 PROPS_FILE = "Props/C05.v"
-MODEL_FILES = ["Model/RTree.v", "Model/TreeRun.v", "Model/Persist.v", "Model/PersistSpec.v", "Model/PersistRun.v"]
+MODEL_FILES = ["Model/RTree.v", "Model/TreeRun.v", "Model/Persist.v", "Model/PersistSpec.v", "Model/PersistRun.v", "Model/Search.v", "Model/Pins.v"]
 RULE = ("(a) histories on stored containers with cache sweeps / single-node deactivations between calls; (b) object-keyed "
         "containers whose key comparison sweeps the cache (and records every node's state) on EVERY comparison inside an "
         "operation, results compared with an un-swept twin; (c) after every call, also failing ones (bad key, missing key, "
@@ -560,15 +560,193 @@ def part_f(ctx, rng, n):
     ctx.cov["raising_comparisons_checked_for_pins"] = nfail
 
 
+class PinKey:
+    """totally ordered key; a comparison in which the probe (argument) key takes part reports the stored key it is compared with"""
+    hook = None
+    __slots__ = ("n", "probe")
+
+    def __init__(self, n, probe=False):
+        self.n = n
+        self.probe = probe
+
+    def __lt__(self, o):
+        if PinKey.hook and (self.probe or o.probe):
+            PinKey.hook(o.n if self.probe else self.n)
+        return self.n < o.n
+
+    def __eq__(self, o):
+        return isinstance(o, PinKey) and self.n == o.n
+
+    def __hash__(self):
+        return hash(self.n)
+
+    def __reduce__(self):
+        return (PinKey, (self.n,))
+
+    def __repr__(self):
+        return "P%d" % self.n
+
+
+def _preorder(t):
+    """node objects in preorder (the numbering of Model/Pins.v `number`) and the shape"""
+    st = t.__getstate__()
+    data = st[0]
+    nodes, kids = [t], []
+    for i in range(0, len(data), 2):
+        c = data[i]
+        sep = 0 if i == 0 else data[i - 1].n
+        if type(c) is type(t):
+            sub_nodes, sub_shape = _preorder(c)
+            nodes += sub_nodes
+            kids.append((sep, sub_shape))
+        else:
+            cs = c.__getstate__()[0]
+            keys = [k.n for k in (cs if not isinstance(cs[0], PinKey) or len(cs) < 2 or isinstance(cs[1], PinKey) else cs[0::2])]
+            nodes.append(c)
+            kids.append((sep, ("leaf", keys)))
+    return nodes, ("node", kids)
+
+
+PIN_HDR = ("From Coq Require Import ZArith List.\nFrom BT Require Import Model.CaseUtil Model.RTree Model.Search Model.Pins.\n"
+           "Import ListNotations.\nOpen Scope Z_scope.\n")
+
+
+def part_g(ctx, rng, n):
+    """The tie of the pin model (Model/Pins.v; theorems C05_pins_*): on stored C trees whose nodes are all ghosts when
+    the call starts, every comparison of the argument with a stored key records WHICH NODES ARE STICKY at that moment;
+    the sequence (stored key, pinned nodes) of lookups (hand-over), inserts / deletes (the whole path) and
+    minKey(k) / maxKey(k) (root + hand-over) must be the model's -- also when the n-th comparison raises (then a
+    prefix of it), and nothing may be sticky afterwards."""
+    from BTrees.OOBTree import OOBTree, OOTreeSet
+    from harness import caseutil
+    from harness.props.c14 import shape_term
+    terms, meta = [], []
+    nobs = 0
+    for it in range(n):
+        cls = rng.choice([OOBTree, OOTreeSet])
+        setlike = cls is OOTreeSet
+        old = (cls.max_leaf_size, cls.max_internal_size)
+        cls.max_leaf_size, cls.max_internal_size = rng.choice([(2, 2), (2, 3), (3, 2), (4, 3), (3, 4)])
+        try:
+            jar = Jar(Storage())
+            t = cls()
+            ks = sorted(rng.sample(range(0, 90, 2), rng.randint(5, 30)))
+            order = ks[:]
+            if rng.random() < 0.5:
+                rng.shuffle(order)
+            for k in order:
+                if setlike:
+                    t.add(PinKey(k))
+                else:
+                    t[PinKey(k)] = k
+            for k in rng.sample(ks, rng.randint(0, len(ks) // 3)):      # stale separators, thinned nodes
+                if setlike:
+                    t.remove(PinKey(k))
+                else:
+                    del t[PinKey(k)]
+                ks.remove(k)
+            if len(t.__getstate__()) == 1 or f16_condition(None, t):
+                continue
+            jar.add(t)
+            jar.commit()
+            nodes, sh = _preorder(t)
+            holders = {}                 # stored key -> preorder indexes of the nodes holding it (as a key or as a node key)
+            cnt = [0]
+
+            def _hold(x):
+                me = cnt[0]
+                cnt[0] += 1
+                if x[0] == "leaf":
+                    for kk in x[1]:
+                        holders.setdefault(kk, []).append(me)
+                else:
+                    for j, (sep, c) in enumerate(x[1]):
+                        if j:
+                            holders.setdefault(sep, []).append(me)
+                        _hold(c)
+            _hold(sh)
+            sizes_ = (cls.max_leaf_size, cls.max_internal_size)
+            probes = sorted(set(rng.sample(ks, min(3, len(ks))) + [rng.randrange(-1, 91) for _ in range(3)]))
+            for k in probes:
+                present = k in ks
+                calls = [("get", 0, False, lambda key: key in t),
+                         ("get2", 0, False, (lambda key: t.has_key(key)) if setlike else (lambda key: t.get(key))),
+                         ("minKey", 2, False, lambda key: t.minKey(key)),
+                         ("maxKey", 2, False, lambda key: t.maxKey(key))]
+                if present:         # writes that change nothing the model's tree would have to follow: the tree is re-read below
+                    calls.append(("set-existing", 1, False, (lambda key: t.add(key)) if setlike else (lambda key: t.__setitem__(key, k))))
+                else:
+                    calls.append(("del-missing", 1, True, (lambda key: t.remove(key)) if setlike else (lambda key: t.__delitem__(key))))
+                for name, d, sepcheck, fn_ in calls:
+                    total = None
+                    for failing in [None] + list(range(1, 8)):
+                        if failing is not None and (total is None or failing > total):
+                            break
+                        jar.abort()
+                        jar.minimize()
+                        obs = []
+
+                        def hook(stored):
+                            obs.append((stored, [i for i, o in enumerate(nodes) if o._p_state == STICKY]))
+                            if failing is not None and len(obs) == failing:
+                                raise _Boom()
+                        PinKey.hook = hook
+                        raised = False
+                        try:
+                            fn_(PinKey(k, True))
+                        except _Boom:
+                            raised = True
+                        except (KeyError, ValueError):
+                            pass
+                        finally:
+                            PinKey.hook = None
+                        if failing is None:
+                            total = len(obs)
+                        nobs += len(obs)
+                        stk = sticky_nodes(jar)
+                        if stk:
+                            ctx.oracle_failure("C:%s:sticky-after:%s%s" % (cls.__name__, name, "-raising" if raised else ""),
+                                               "%s sizes=%r keys %r stored: %s(%d)%s leaves %d node(s) pinned (_p_state == 2)" % (
+                                                   cls.__name__, sizes_, ks, name, k, (" with comparison #%d raising" % failing) if raised else "", len(stk)),
+                                               {"kind": cls.__name__, "sizes": list(sizes_), "keys": ks, "call": name, "key": k, "failing": failing})
+                            for o in stk:
+                                o._p_deactivate()
+                        for stored, pins in obs:       # direct statement: the node holding the compared key is pinned
+                            if not any(i in pins for i in holders.get(stored, [])):
+                                ctx.oracle_failure("C:%s:comparison-with-nothing-pinned:%s" % (cls.__name__, name),
+                                                   "%s sizes=%r keys %r stored: %s(%d) compares with stored key %d while no node holding that key is pinned" % (
+                                                       cls.__name__, sizes_, ks, name, k, stored),
+                                                   {"kind": cls.__name__, "sizes": list(sizes_), "keys": ks, "call": name, "key": k})
+                                break
+                        terms.append("PINC %s %d %s %s %s [%s]" % (
+                            shape_term(sh), d, "true" if sepcheck else "false", caseutil.z(k), "false" if raised else "true",
+                            "; ".join("(%s, [%s])" % (caseutil.z(sk), "; ".join("%d%%nat" % i for i in pins)) for sk, pins in obs)))
+                        meta.append((cls.__name__, sizes_, ks, name, k, failing, obs))
+            ctx.count(("g-pins", setlike, sizes_, tuple(ks)))
+        finally:
+            cls.max_leaf_size, cls.max_internal_size = old
+            PinKey.hook = None
+    total, bad, errs = caseutil.eval_cases("c05pins", PIN_HDR, "pincase_ok", terms, shard=400, ctype="wpincase")
+    for e in errs:
+        ctx.corr_mismatch("c05 pin case file", e)
+    for i in bad[:5]:
+        m = meta[i]
+        ctx.corr_mismatch("pin model (Model/Pins.v: which nodes are sticky at each comparison) vs the C extension",
+                          {"kind": m[0], "sizes": list(m[1]), "keys": m[2], "call": m[3], "key": m[4], "failing_comparison": m[5],
+                           "observed (stored key, pinned preorder indexes)": m[6]})
+    ctx.cov["calls_compared_with_the_pin_model"] = total
+    ctx.cov["comparisons_observed_with_their_pinned_nodes"] = nobs
+
+
 def run(ctx):
+    import os
     rng = ctx.rng
-    part_f(ctx, rng, ctx.n(40, 1500))
-    part_e(ctx, rng, ctx.n(60, 3000))
-    part_a(ctx, rng, ctx.n(600, 40000))
-    part_b(ctx, rng, ctx.n(300, 25000))
-    part_c(ctx, rng, ctx.n(400, 25000))
-    part_d(ctx, rng, ctx.n(300, 20000))
-    model_tie(ctx, rng, ctx.n(50, 1500))
+    only = os.environ.get("VERIF_C05_PARTS")      # debugging aid: e.g. VERIF_C05_PARTS=g runs one part only
+    parts = [("f", part_f, (40, 1500)), ("g", part_g, (40, 1200)), ("e", part_e, (60, 3000)), ("a", part_a, (600, 40000)),
+             ("b", part_b, (300, 25000)), ("c", part_c, (400, 25000)), ("d", part_d, (300, 20000)), ("m", model_tie, (50, 1500))]
+    for name, fn_, (q, th) in parts:
+        if only is None or name in only:
+            fn_(ctx, rng, ctx.n(q, th))
     ctx.traces = ctx.evaluations
 
 
